@@ -1,31 +1,11 @@
 import GateryModel.C17.LemmasTree
 /-!
-Helper lemmas for C17: the registered `priorityEncoderTree(registerStep = true)` is the combinational tree delayed by
-`L` cycles, provided all paths through the tree carry the same number `L` of registers (balanced chunking).
+Helper lemmas for C17: the registered `priorityEncoderTree(registerStep = true)` (chunks zero-extended to equal size, one register
+per level) outputs in cycle `t` the flat priority encoding of the input of cycle `t - L`, `L` = number of levels — for every
+input width and every `bps ≥ 1`.
 -/
 namespace Gatery.C17
 open Spec
-
-theorem mapOpt_congr {α β : Type} (f g : α → Option β) (l : List α) (h : ∀ a ∈ l, f a = g a) : mapOpt f l = mapOpt g l := by
-  induction l with
-  | nil => rfl
-  | cons a t ih =>
-    simp only [mapOpt, h a (by simp)]
-    rw [ih (fun b hb => h b (by simp [hb]))]
-
-theorem mapOpt_map {α β γ : Type} (f : β → Option γ) (g : α → β) (l : List α) : mapOpt f (l.map g) = mapOpt (fun a => f (g a)) l := by
-  induction l with
-  | nil => rfl
-  | cons a t ih => simp only [List.map_cons, mapOpt, ih]
-
-theorem mapOpt_range_getD {β : Type} (f : List Bool → Option β) (l : List (List Bool)) :
-    mapOpt (fun i => f (l.getD i [])) (List.range l.length) = mapOpt f l := by
-  induction l with
-  | nil => rfl
-  | cons a t ih =>
-    rw [List.length_cons, List.range_succ_eq_map, mapOpt, mapOpt_map]
-    simp only [List.getD_cons_zero, List.getD_cons_succ, mapOpt]
-    rw [ih]
 
 theorem chunks_length_congr (per fuel : Nat) (l1 l2 : List Bool) (h : l1.length = l2.length) :
     (chunks per fuel l1).length = (chunks per fuel l2).length := by
@@ -41,132 +21,97 @@ theorem chunks_length_congr (per fuel : Nat) (l1 l2 : List Bool) (h : l1.length 
     · simp only [List.length_cons]
       rw [ih (l1.drop per) (l2.drop per) (by simp [List.length_drop, h])]
 
-/-- the `i`-th chunk has `min per (n - i·per)` bits, and exists only while `i·per < n` -/
-theorem chunks_getD_length (per : Nat) (hper : 1 ≤ per) (fuel : Nat) (l : List Bool) (hl : l.length ≤ fuel) (i : Nat)
-    (hi : i < (chunks per fuel l).length) :
-    ((chunks per fuel l).getD i []).length = min per (l.length - i * per) ∧ i * per < l.length := by
-  induction fuel generalizing l i with
-  | zero => simp [chunks] at hi
-  | succ fuel ih =>
-    rw [chunks] at hi ⊢
-    cases he : l.isEmpty with
-    | true => simp [he] at hi
-    | false =>
-      simp only [he, Bool.false_eq_true, if_false] at hi ⊢
-      have hne : l ≠ [] := by simpa using he
-      have hlen : 0 < l.length := List.length_pos_iff.mpr hne
-      cases i with
-      | zero => simp [List.length_take]; omega
-      | succ i =>
-        simp only [List.getD_cons_succ]
-        have hd : (l.drop per).length ≤ fuel := by simp [List.length_drop]; omega
-        have := ih (l.drop per) hd i (by simpa using hi)
-        simp only [List.length_drop] at this
-        rw [this.1, Nat.succ_mul]
-        constructor
-        · congr 1; omega
-        · omega
+theorem map_range_getD {β : Type} (F : List Bool → β) (l : List (List Bool)) :
+    (List.range l.length).map (fun i => F (l.getD i [])) = l.map F := by
+  induction l with
+  | nil => rfl
+  | cons a t ih =>
+    rw [List.length_cons, List.range_succ_eq_map, List.map_cons, List.map_map]
+    simp only [List.getD_cons_zero, List.map_cons]
+    congr 1
 
-theorem peTreeDepth_le (bps fuel n : Nat) : peTreeDepth bps false fuel n ≤ peTreeDepth bps true fuel n := by
-  induction fuel generalizing n with
-  | zero => simp [peTreeDepth]
-  | succ fuel ih =>
-    simp only [peTreeDepth]
-    split
-    · exact Nat.le_refl _
-    · split
-      · have := ih (nextPow2 ((n + 2 ^ bps - 1) / 2 ^ bps)); omega
-      · have h1 := ih (nextPow2 ((n + 2 ^ bps - 1) / 2 ^ bps))
-        have h2 := ih (n % nextPow2 ((n + 2 ^ bps - 1) / 2 ^ bps))
-        simp only [Bool.false_eq_true, if_false, if_true]
-        omega
+theorem chunks_getD_le (per : Nat) (hper : 1 ≤ per) (fuel : Nat) (l : List Bool) (i : Nat) :
+    ((chunks per fuel l).getD i []).length ≤ per := by
+  by_cases hi : i < (chunks per fuel l).length
+  · have hmem : (chunks per fuel l).getD i [] ∈ chunks per fuel l := by
+      simp only [List.getD, List.getElem?_eq_getElem hi, Option.getD_some]; exact List.getElem_mem hi
+    exact (chunks_mem per hper fuel l _ hmem).2
+  · simp [List.getD, List.getElem?_eq_none (Nat.le_of_not_lt hi)]
 
-/-- **balanced pipelining**: if the longest and the shortest register path both have `L` registers, then from cycle `L` on
-the registered tree outputs what the combinational tree computes from the input `L` cycles earlier -/
-theorem peTreeReg_balanced (bps : Nat) (hb : 1 ≤ bps) (fuel : Nat) :
-    ∀ (n L : Nat) (hist : Nat → List Bool) (t : Nat), (∀ s, (hist s).length = n) → n < fuel →
-      peTreeDepth bps true fuel n = L → peTreeDepth bps false fuel n = L → L ≤ t →
-      peTreeReg bps fuel hist t = peTree bps fuel (hist (t - L)) := by
+theorem padTo_length (per : Nat) (l : List Bool) (h : l.length ≤ per) : (padTo per l).length = per := by
+  simp [padTo]; omega
+
+theorem lowestSet_replicate_false (k : Nat) : lowestSet (List.replicate k false) = none := by
+  induction k with
+  | zero => rfl
+  | succ k ih => simp [List.replicate_succ, lowestSet, ih]
+
+/-- zero-extension does not change the lowest set bit -/
+theorem lowestSet_padTo (per : Nat) (l : List Bool) : lowestSet (padTo per l) = lowestSet l := by
+  unfold padTo
+  rw [lowestSet_append, lowestSet_replicate_false]
+  cases lowestSet l <;> rfl
+
+theorem peTreeReg_eq_flat (bps : Nat) (hb : 1 ≤ bps) (fuel : Nat) :
+    ∀ (n : Nat) (hist : Nat → List Bool) (t : Nat), (∀ s, (hist s).length = n) → n < fuel → peTreeRegDepth bps fuel n ≤ t →
+      ∃ w, peTreeReg bps fuel hist t = some ⟨w, (priorityEncoder (hist (t - peTreeRegDepth bps fuel n))).v,
+                                               (priorityEncoder (hist (t - peTreeRegDepth bps fuel n))).valid⟩ := by
   induction fuel with
-  | zero => intro n L hist t _ hn; omega
+  | zero => intro n hist t _ hn; omega
   | succ fuel ih =>
-    intro n L hist t hlen hn hmax hmin hLt
-    rw [peTreeReg, peTree]
-    simp only [peTreeDepth] at hmax hmin
-    rw [hlen t, hlen (t - L)]
+    intro n hist t hlen hn hLt
+    rw [peTreeReg]
+    simp only [peTreeRegDepth] at hLt ⊢
+    rw [hlen t]
     have hS : 2 ≤ 2 ^ bps := by
       calc 2 = 2 ^ 1 := rfl
         _ ≤ 2 ^ bps := Nat.pow_le_pow_right (by omega) hb
     generalize hSdef : 2 ^ bps = S at *
     generalize hxdef : (n + S - 1) / S = x at *
     by_cases hper : nextPow2 x ≤ 1
-    · rw [if_pos hper] at hmax
-      rw [if_pos hper, if_pos hper]
-      subst hmax
-      simp
-    · rw [if_neg hper] at hmax hmin
-      rw [if_neg hper, if_neg hper]
-      have hx0 : x ≠ 0 := by
-        intro h; subst h; simp [nextPow2] at hper
-      have hnp : nextPow2 x = 2 ^ log2C x := by simp [nextPow2, hx0]
-      have hx2 : 2 ≤ x := by
-        apply Nat.le_of_not_lt
-        intro h
-        have : x = 1 := by omega
-        subst this
-        simp [nextPow2, log2C] at hper
-      have hperlt : nextPow2 x < n := by
-        have := per_lt n S hS (by rw [hxdef]; exact hx2)
-        rw [hxdef] at this; rw [hnp]; exact this
-      generalize hperdef : nextPow2 x = per at *
-      have hper1 : 1 ≤ per := by omega
-      -- all chunk depths are L - 1
-      have hfm := peTreeDepth_le bps fuel per
-      have hlm := peTreeDepth_le bps fuel (n % per)
-      have hL1 : 1 ≤ L := by
-        split at hmax <;> omega
-      have hfull : peTreeDepth bps true fuel per = L - 1 ∧ peTreeDepth bps false fuel per = L - 1 := by
-        split at hmax
-        · rename_i h0; rw [if_pos h0] at hmin; omega
-        · rename_i h0; rw [if_neg h0] at hmin
-          simp only [if_true, Bool.false_eq_true, if_false] at hmax hmin
-          omega
-      have hlast : n % per ≠ 0 → peTreeDepth bps true fuel (n % per) = L - 1 ∧ peTreeDepth bps false fuel (n % per) = L - 1 := by
-        intro h0
-        rw [if_neg h0] at hmax hmin
-        simp only [if_true, Bool.false_eq_true, if_false] at hmax hmin
-        omega
-      -- chunk counts agree over time
-      have hcnt : ∀ s, (chunks per n (hist s)).length = (chunks per n (hist (t - L))).length :=
-        fun s => chunks_length_congr per n _ _ (by rw [hlen, hlen])
-      have hmap : mapOpt (fun i => peTreeReg bps fuel (fun s => (chunks per n (hist s)).getD i []) (t - 1))
-            (List.range (chunks per n (hist t)).length)
-          = mapOpt (peTree bps fuel) (chunks per n (hist (t - L))) := by
-        rw [hcnt t, ← mapOpt_range_getD (peTree bps fuel)]
-        apply mapOpt_congr
+    · rw [if_pos hper] at hLt ⊢
+      rw [if_pos hper]
+      exact ⟨_, rfl⟩
+    · rw [if_neg hper] at hLt ⊢
+      rw [if_neg hper]
+      obtain ⟨hper2, hperlt, hxper, hlowW⟩ := per_facts n S x hS hxdef hper
+      generalize nextPow2 x = per at *
+      generalize hLdef : peTreeRegDepth bps fuel per = L1 at *
+      -- the input word that reaches the output now
+      have ht : t - (1 + L1) = t - 1 - L1 := by omega
+      rw [ht]
+      have hsrc : (hist (t - 1 - L1)).length = n := hlen _
+      have hne : hist (t - 1 - L1) ≠ [] := by
+        intro h; rw [h] at hsrc; simp at hsrc; omega
+      have hcnt : (chunks per n (hist t)).length = (chunks per n (hist (t - 1 - L1))).length :=
+        chunks_length_congr per n _ _ (by rw [hlen, hlen])
+      -- the lower level, by induction: every padded chunk stream has `per` bits
+      have hlower : ∀ i ∈ List.range (chunks per n (hist t)).length,
+          ∃ w, peTreeReg bps fuel (fun s => padTo per ((chunks per n (hist s)).getD i [])) (t - 1)
+            = some ⟨w, lowestSet ((chunks per n (hist (t - 1 - L1))).getD i []),
+                       (lowestSet ((chunks per n (hist (t - 1 - L1))).getD i [])).isSome⟩ := by
         intro i hi
-        have hi' : i < (chunks per n (hist (t - L))).length := by simpa using hi
-        -- the i-th chunk stream has constant length ni
-        have hci : ∀ s, ((chunks per n (hist s)).getD i []).length = min per (n - i * per) ∧ i * per < n := by
-          intro s
-          have := chunks_getD_length per hper1 n (hist s) (by rw [hlen]; exact Nat.le_refl _) i (by rw [hcnt s]; exact hi')
-          rw [hlen] at this; exact this
-        have hin : i * per < n := (hci 0).2
-        have hdepth : peTreeDepth bps true fuel (min per (n - i * per)) = L - 1 ∧
-            peTreeDepth bps false fuel (min per (n - i * per)) = L - 1 := by
-          by_cases hfullc : per ≤ n - i * per
-          · rw [Nat.min_eq_left hfullc]; exact hfull
-          · have hrest : n - i * per = n % per := by
-              have hc : per * i = i * per := Nat.mul_comm ..
-              have := (Nat.div_mod_unique (by omega : 0 < per) (a := n) (d := i) (c := n - i * per)).mpr
-                ⟨by omega, by omega⟩
-              exact this.2.symm
-            rw [Nat.min_eq_right (by omega), hrest]
-            exact hlast (by omega)
-        have := ih (min per (n - i * per)) (L - 1) (fun s => (chunks per n (hist s)).getD i []) (t - 1)
-          (fun s => (hci s).1) (by have := Nat.min_le_left per (n - i * per); omega) hdepth.1 hdepth.2 (by omega)
-        rw [this, show t - 1 - (L - 1) = t - L by omega]
-      simp only
-      rw [hmap]
+        have hi' : i < (chunks per n (hist (t - 1 - L1))).length := by rw [← hcnt]; simpa using hi
+        have hl : ∀ s, (padTo per ((chunks per n (hist s)).getD i [])).length = per :=
+          fun s => padTo_length per _ (chunks_getD_le per (by omega) n (hist s) i)
+        obtain ⟨w, hw⟩ := ih per (fun s => padTo per ((chunks per n (hist s)).getD i [])) (t - 1) hl (by omega)
+          (by rw [hLdef]; omega)
+        rw [hLdef] at hw
+        refine ⟨w, ?_⟩
+        rw [hw]
+        have hpne : padTo per ((chunks per n (hist (t - 1 - L1))).getD i []) ≠ [] := by
+          intro h
+          have := hl (t - 1 - L1)
+          rw [h] at this; simp at this; omega
+        simp only [priorityEncoder_v _ hpne, priorityEncoder_valid, lowestSet_padTo]
+      obtain ⟨lower, hl, hm⟩ := mapOpt_some _ _ _ _ hlower
+      rw [hl]
+      rw [hcnt, map_range_getD (fun c => (lowestSet c, (lowestSet c).isSome))] at hm
+      rw [priorityEncoder_v _ hne, priorityEncoder_valid]
+      have hm' : (lower.map fun o => (o.v, o.valid)) =
+          (chunks per (hist (t - 1 - L1)).length (hist (t - 1 - L1))).map fun c => (lowestSet c, (lowestSet c).isSome) := by
+        rw [hsrc]; exact hm
+      obtain ⟨w, hw⟩ := treeCombine_flat bps S x per (hist (t - 1 - L1)) lower hSdef hS (by rw [hsrc]; exact hxdef) hper2 hxper hlowW hm'
+      exact ⟨w, by simp only [hw]⟩
 
 end Gatery.C17
